@@ -125,11 +125,15 @@ def check_case(res, T, v, rng, bt=None):
         try:
             if U.canon(T, B.absval(obj, T)) != bt.cv:
                 if 'absent-optional-emptyable-record' in feats0:
-                    res.see('history-dropped:value-changed-in-emptyable-optional-zone')
+                    # a read has left a placeholder for an absent OPTIONAL record without mandatory members, which
+                    # the public API then shows as present-and-empty (pinned data-model limitation).  The property
+                    # still speaks about this history - "after any number of prior read-only uses" - so its
+                    # encodings ARE compared with the others; only the read-back cross-check is waived.
+                    res.see('history-kept:placeholder-in-emptyable-optional-zone')
                 else:
                     res.witness('history-reads-back-as-a-different-value:' + kind, feats0 | set(used),
                                 ('c04', T, v, 'DER', 'plain', kind), 'routes %s' % sorted(used))
-                continue
+                    continue
         except B.NotAValue as ex:
             res.witness('history-reads-back-as-not-a-value:' + kind, feats0 | set(used),
                         ('c04', T, v, 'DER', 'plain', kind), '%s; routes %s' % (ex, sorted(used)))
